@@ -934,7 +934,7 @@ class Columns(Widget, WidgetContainerMixin, WidgetContainerListContentsMixin):
 
         if len(size) == 1:
             if heights:
-                max_height = max(heights.values())
+                max_height = max(1, *heights.values())  # as rows(): hidden columns count 0, the row is still there
                 if box_need_height:
                     warnings.warn(
                         f"Widgets in columns {box_need_height} "
